@@ -105,7 +105,8 @@ func NewEG(t *rapid.T, sc *Scope, o ExprOpts) *EG {
 	}
 	g := &EG{t: t, o: o, budget: o.Budget, Feat: map[string]int{}}
 	for _, n := range sc.Names {
-		g.addPaths(ast.Var{Name: n}, sc.Vals[n], 0)
+		v, _ := sc.Vals[n].UnmarkDeep() // marks do not matter for discovering access paths
+		g.addPaths(ast.Var{Name: n}, v, 0)
 	}
 	return g
 }
